@@ -544,6 +544,28 @@ def _length_first(ctx) -> None:
                 checked = any(pol and t[0] == "cmp" and t[1] == "Eq" and ln_s in (t[2], t[3])
                               and any(("call", ("name", "len"), (o,), ()) in (t[2], t[3]) for o in others) for t, pol in fc)
                 if not checked:
+                    # (two branches that compute the values and ONE return behind them: the comparison is not in the return's own path
+                    #  condition any more - it is on the way when, for each kind of sequence operand that reaches the return, an earlier
+                    #  raise sits under conditions that all hold for that kind plus the unequal lengths)
+                    def on_the_way(kind):
+                        def atom(x):
+                            if x[0] == "call" and x[1] == ("name", "isinstance") and len(x[2]) == 2 and x[2][0] in others:
+                                names = {y[1] for y in subterms(x[2][1]) if y[0] == "name"}
+                                if names & KN[kind]:
+                                    return True
+                                return False if names and names <= ALL else None
+                            return None
+                        for r_ in it.events:
+                            if r_.kind != "raise" or r_.seq > e.seq or r_.depth != 0:
+                                continue
+                            rc = flatten_conds(r_.conds)
+                            is_len = lambda t, pol: (not pol) and t[0] == "cmp" and t[1] == "Eq" and ln_s in (t[2], t[3]) \
+                                and any(("call", ("name", "len"), (o,), ()) in (t[2], t[3]) for o in others)
+                            if sum(1 for t, pol in rc if is_len(t, pol)) == 1 and all(is_len(t, pol) or _tv(t, atom) is pol for t, pol in rc):
+                                return True
+                        return False
+                    checked = all(on_the_way(k_) for k_ in ("Vector", "list") if reach(k_))
+                if not checked:
                     problems.append(f"`return {show(e.term, it)[:60]}` (line {getattr(e.node, 'lineno', '?')}) returns a result for a "
                                     f"vector/sequence operand before `len(self) != len({f.params[1]})` has been checked: different lengths "
                                     f"would not raise")
